@@ -630,9 +630,13 @@ def issue(sim, s, model, piece, T, base=None):
 
 
 def run_pieces(prog, clock, pieces, faults=None, strategy=None, raw=(),
-               end=END, warmup=0, listener=None, switch=None):
+               end=END, warmup=0, listener=None, switch=None,
+               bystander=False):
     """execute the piece list on the real simulator; one observation per
-    piece plus a final one after cleanup"""
+    piece plus a final one after cleanup.  With bystander, after every piece
+    an unrelated simulator of the same class is created, initialised with
+    its own copy of the program, run to its end and cleaned up in the same
+    process: two simulators share nothing, so nothing may change."""
     from pydsol.core.experiment import SingleReplication
     simc, T = time_types()[clock]
     base = base_of(clock)
@@ -657,9 +661,22 @@ def run_pieces(prog, clock, pieces, faults=None, strategy=None, raw=(),
                             clock=float(sim.simulator_time - base),
                             state=(sim.run_state.name,
                                    sim.replication_state.name)))
+            if bystander:
+                sim2 = simc("bystander")
+                m2 = M(sim2, prog, T, base=base)
+                sim2.initialize(m2, SingleReplication("r2", base, T(0),
+                                                      T(end)))
+                if bystander != "init":
+                    issue(sim2, s, m2, ("start",), T, base)
+                by.append(list(m2.trace))
+                sim2.cleanup()
+                s.wait_quiescent()
         sim.cleanup()
         s.wait_quiescent()
+        if by:
+            obs[-1]["bystander"] = by
         return obs
+    by = []
     r = coopsched.run_one(body)
     if r.failure:
         return {"failure": r.failure}
